@@ -45,7 +45,8 @@ CORRUPTIONS = ["flip-quote", "flip-quote-report-data", "flip-quote-signature", "
                "att-key-replaced", "truncate-quote-signature", "swap-att-and-quote-signatures",
                "quote-extended", "auth-data-extended", "attacker-branch-under-non-x509",
                "root-of-other-kind", "quote-hash-at-offset", "att-hash-at-offset",
-               "wrong-root-extra-targets", "flip-x509-extra-targets"]
+               "wrong-root-extra-targets", "flip-x509-extra-targets",
+               "attacker-chain-with-own-root-embedded", "attacker-chain-with-own-root-embedded"]
 
 
 # process time zones of the shards (None: as inherited, UTC in this sandbox): validity is a
@@ -177,6 +178,18 @@ def corrupt(rng, m, doc, kind):
         curve = ec.SECP384R1() if kind == "leaf-p384" else ec.SECP256K1()
         m2 = g.build(rng, depth=len(m.certs), leaf_curve=curve)
         return g.to_doc(m2), m2.root_cert, "attestation"
+    if kind == "attacker-chain-with-own-root-embedded":
+        # a whole chain made by somebody else, who ships his own root certificate inside
+        # the file under the reserved name of the root of trust (or as an extra element)
+        m2 = g.build(rng, depth=len(m.certs))
+        d2 = g.to_doc(m2)
+        nm = rng.choice(["sgx_root", "sgx_root", "root", "Sgx_root"])
+        d2["elements"].insert(rng.randrange(len(d2["elements"]) + 1), {
+            "name": nm, "type": "x509_pem", "message": g.pem_body(m2.root_cert),
+            "signed_by": rng.choice(["sgx_root", nm])})
+        top = [e["name"] for e in d2["elements"] if e["signed_by"] == "sgx_root" and
+               e["name"] != nm]
+        return d2, m.root_cert, top[0]
     if kind == "wrong-root":
         k = g.new_key(rng)
         return d, g.make_cert("root", k.public_key(), "root", k), certs[0]["name"]
@@ -270,6 +283,21 @@ def run_code(doc, root_cert, tmpdir):
             REVALIDATION.append("valid-under-an-unrelated-root-after-earlier-validation")
         if verdicts(cert.validate_and_get_values(root)) != verdicts(first):
             REVALIDATION.append("validation-after-other-root-differs")
+        # an element replaced in the object (add_element, same name): the next validation
+        # judges the certificate as it is now - broken, then whole again
+        if first.get("quote", (False,))[0]:
+            from admin.certificate_v2 import HSMCertificateV2Element
+            q = [e for e in doc["elements"] if e["name"] == "quote"][0]
+            broken = dict(q)
+            cd = bytearray(bytes.fromhex(broken["custom_data"]))
+            cd[len(cd) // 2] ^= 0x04
+            broken["custom_data"] = bytes(cd).hex()
+            cert.add_element(HSMCertificateV2Element.from_dict(broken))
+            if cert.validate_and_get_values(root)["quote"][0]:
+                REVALIDATION.append("still-valid-after-an-element-on-the-path-was-replaced")
+            cert.add_element(HSMCertificateV2Element.from_dict(dict(q)))
+            if verdicts(cert.validate_and_get_values(root)) != verdicts(first):
+                REVALIDATION.append("not-valid-again-after-the-element-was-put-back")
     except Exception as e:
         REVALIDATION.append("revalidation-raised-%s" % type(e).__name__)
     return first
